@@ -37,7 +37,8 @@ def vpn_key(r, withdraw=False):
 
 
 class Model(object):
-    def __init__(self):
+    def __init__(self, rib=True):
+        self.rib = rib          # [bgp] rib = false: no IPv4 table is kept, so nothing about IPv4 ever changes
         self.reset()
 
     def reset(self):
@@ -47,6 +48,8 @@ class Model(object):
         """returns set of families whose table changed"""
         changed = set()
         k = op['kind']
+        if k == 'ipv4' and not self.rib:
+            return changed
         if k == 'ipv4':
             t = self.t['ipv4']
             for p in op.get('withdraw', []):
@@ -122,7 +125,13 @@ def rest_post(op):
     if op.get('withdraw_routes'):
         wk = op.get('wd_kind', op['kind'])
         attrs['15'] = {'afi_safi': [1, 133] if wk == 'flowspec' else [1, 128], 'withdraw': [{str(k): v for k, v in r.items()} for r in op['withdraw_routes']]}
-    return {'attr': attrs}
+    b = {'attr': attrs}
+    if op.get('nlri'):
+        attrs.update({str(k): v for k, v in op['attr'].items()})
+        b['nlri'] = op['nlri']
+    if op.get('withdraw'):
+        b['withdraw'] = op['withdraw']
+    return b
 
 
 def small_ops():
@@ -173,8 +182,7 @@ def random_op(rng):
         op['wd_kind'] = 'mpls_vpn' if k == 'flowspec' else 'flowspec'
         op['withdraw_routes'] = rng.sample(VPN if k == 'flowspec' else FS, rng.choice([1, 2]))
     if rng.random() < 0.2:
-        # classic IPv4 prefixes travelling in the same UPDATE as the MP attribute (receive side)
-        op['dironly'] = 'recv'
+        # classic IPv4 prefixes travelling in the same UPDATE / request as the MP attribute
         if rng.random() < 0.7:
             op['nlri'] = rng.sample(PFX, rng.choice([1, 2]))
         if rng.random() < 0.5:
@@ -183,10 +191,11 @@ def random_op(rng):
 
 
 class Runner(object):
-    def __init__(self, side, V, stats):
+    def __init__(self, side, V, stats, rib=True):
         self.side, self.V, self.stats = side, V, stats
-        self.w = World(bgp_opts={'rib': True, 'afi_safi': ['ipv4', 'flowspec']}, time_opts={'idle_hold_time': 1})
-        self.models = {'recv': Model(), 'send': Model()}
+        self.rib = rib
+        self.w = World(bgp_opts={'rib': rib, 'afi_safi': ['ipv4', 'flowspec']}, time_opts={'idle_hold_time': 1})
+        self.models = {'recv': Model(rib), 'send': Model(rib)}
         self.model = self.models[side] if side in self.models else None
         self.fixed_side = side
         self.connect()
@@ -204,7 +213,7 @@ class Runner(object):
         return dict(body['version']) if code == 200 and body and 'version' in body else None
 
     def bad(self, kind, feats, detail, seq):
-        self.V.setdefault((kind, tuple(sorted(feats))), dict(kind=kind, features=sorted(feats), detail=detail, replay=dict(side=self.fixed_side, ops=seq)))
+        self.V.setdefault((kind, tuple(sorted(feats))), dict(kind=kind, features=sorted(feats), detail=detail, replay=dict(side=self.fixed_side, ops=seq, rib=self.rib)))
 
     def step(self, op, seq):
         w = self.w
@@ -253,6 +262,11 @@ class Runner(object):
                 self.stats['send_refused'] += 1
                 refused = True
         self.stats['steps'] += 1
+        if self.side == 'send' and op['kind'] != 'ipv4' and (op.get('nlri') or op.get('withdraw')) and not refused:
+            # the request's own attribute dictionary is what the Adj-RIB-Out keeps for the IPv4 prefixes
+            posted = rest_post(op)['attr']
+            op = dict(op, _ipv4_attr={int(k_): v_ for k_, v_ in posted.items()})
+            self.stats['mixed_updates'] = self.stats.get('mixed_updates', 0) + 1
         if self.side == 'recv' and op['kind'] != 'ipv4' and (op.get('nlri') or op.get('withdraw')):
             # IPv4 prefixes next to an MP attribute: their attributes are all path attributes of that UPDATE, as the
             # handler was given them (decoding itself is C09's subject)
@@ -284,7 +298,7 @@ class Runner(object):
             # the REST view of the same table (exact prefixes present in the model)
             # (a route received without any path attribute is not shown by the adj-rib-in endpoint: outside the statement, the table itself is judged above)
             present = sorted(p for p in self.model.t['ipv4'] if self.model.t['ipv4'][p] or self.side == 'send')
-            if present:
+            if present and self.rib:
                 code, body = w.rest('POST', 'adj-rib-in' if self.side == 'recv' else 'adj-rib-out', json_body={'data': present})
                 self.stats['rest_rib_queries'] += 1
                 ok = code == 200 and body and body.get('status') is True
@@ -350,7 +364,9 @@ def run_shard(sh):
         if budget.expired():
             break
         side = ('recv', 'send', 'both')[i % 3]
-        r = Runner(side, V, stats)
+        r = Runner(side, V, stats, rib=(i % 6) < 4)
+        if not r.rib:
+            stats['runs_without_rib'] = stats.get('runs_without_rib', 0) + 1
         seq = []
         for j in range(sh['length']):
             op = random_op(rng)
@@ -379,7 +395,7 @@ def floors(m, tier):
 def replay(rep):
     V = {}
     stats = dict(steps=0, drops=0, table_comparisons=0, version_checks=0, rest_rib_queries=0, send_refused=0, max_step=0)
-    r = Runner(rep['side'], V, stats)
+    r = Runner(rep['side'], V, stats, rib=rep.get('rib', True))
     for j, op in enumerate(rep['ops']):
         op = dict(op)
         if 'attr' in op:
